@@ -141,6 +141,7 @@ def augment(
             "state_list and action_list can only be set for TabularMarkovDecisionProcess"
     class AugmentedMDP(mdp.__class__):
         def __init__(self): pass
+    AugmentedMDP.discount_rate = mdp.discount_rate
     if initial_state_dist is not None:
         AugmentedMDP.initial_state_dist = staticmethod(initial_state_dist)
     else:
